@@ -142,6 +142,36 @@ impl Functor<Ob, Op, Ob, Op> for LFunctorPending {
     }
 }
 
+/// lax optic whose forward / reverse generator images carry label-consistent pending pairs
+#[derive(Clone)]
+pub struct LOpticPending(
+    pub OpticTable,
+    pub std::collections::BTreeMap<crate::functor_model::OpKey, Vec<(usize, usize)>>,
+    pub std::collections::BTreeMap<crate::functor_model::OpKey, Vec<(usize, usize)>>,
+);
+
+impl open_hypergraphs::lax::optic::Optic<Ob, Op, Ob, Op> for LOpticPending {
+    fn fwd_object(&self, o: &Ob) -> Vec<Ob> {
+        self.0.fwd.object(o.0).iter().map(|&l| Ob(l)).collect()
+    }
+    fn fwd_operation(&self, a: &Op, source: &[Ob], target: &[Ob]) -> LOH {
+        let key = (a.0, unobs(source), unobs(target));
+        let d = self.0.fwd.operation_cb(a.0, &key.1, &key.2);
+        to_lax(&Lax { d, q: self.1.get(&key).cloned().unwrap_or_default() })
+    }
+    fn rev_object(&self, o: &Ob) -> Vec<Ob> {
+        self.0.rev.object(o.0).iter().map(|&l| Ob(l)).collect()
+    }
+    fn rev_operation(&self, a: &Op, source: &[Ob], target: &[Ob]) -> LOH {
+        let key = (a.0, unobs(source), unobs(target));
+        let d = self.0.rev.operation_cb(a.0, &key.1, &key.2);
+        to_lax(&Lax { d, q: self.2.get(&key).cloned().unwrap_or_default() })
+    }
+    fn residual(&self, a: &Op) -> Vec<Ob> {
+        self.0.residual.iter().find(|(k, _)| k.0 == a.0).map(|(_, v)| v.iter().map(|&l| Ob(l)).collect()).unwrap_or_default()
+    }
+}
+
 #[derive(Clone)]
 pub struct LOptic(pub OpticTable);
 
